@@ -11,7 +11,7 @@ from typing import Dict, List, Optional
 
 from fsa.consts import fold_enum
 from fsa.effects import effect_nodes, local_aliases_of, direct_writes
-from fsa.match import dict_slot, dotted, enum_value_ref, is_call, is_const, is_self_call, is_super_call, is_underscore_key, kwarg, method_call, has_star_kwargs
+from fsa.match import Unknown, dict_slot, dotted, enum_value_ref, is_call, is_const, is_self_call, is_super_call, is_underscore_key, kwarg, method_call, has_star_kwargs
 from fsa.source import Unsupported, iter_own_nodes, stmt_key, text
 from rules.common import Fn
 
@@ -123,28 +123,160 @@ def r2_fill_defaults(R) -> None:
     for x in ast.walk(init.node):
         if is_super_call(x, 'add_variable') and x.args and isinstance(x.args[0], ast.Constant) and len(x.args) >= 2:
             inits[x.args[0].value] = x.args[1]
-    for key in ('status', 'iterations'):
-        st = [n for n in g.cfg.nodes if n.kind == 'stmt' and isinstance(n.ast, ast.Assign) and isinstance(n.ast.targets[0], ast.Subscript)
-              and text(n.ast.targets[0].value) == 'fill_values' and is_const(n.ast.targets[0].slice, key)]
-        if not R.require(MR, len(st), f"fill_values['{key}'] default", fi=g.fi, pred=lambda x: isinstance(x, ast.Subscript) and text(x.value) == 'fill_values'):
-            continue
-        v = st[0].ast.value
-        ok = method_call(v, 'get') and text(v.func.value) == 'fill_values' and is_const(v.args[0], key) and len(v.args) == 2
-        R.check(ok, MR, f'model-default-keeps-caller:{key}', f"a caller-supplied fill for `{key}` is kept", f"`{text(v)[:60]}` overrides a caller-supplied `{key}` fill", where=g.where(st[0]))
-        if ok and key in inits:
-            same = ast.dump(v.args[1]) == ast.dump(inits[key])
-            R.check(same, MR, f'model-default:{key}:{text(v.args[1])}', f'new periods get the initial `{key}` value ({text(inits[key])})',
-                    f"reindex default for `{key}` is `{text(v.args[1])}` but ModelInterface.__init__ initialises it with `{text(inits[key])}`", where=g.where(st[0]))
-    # and they are forwarded
+    # what the base reindex receives as per-variable fills: layers, lowest precedence first - 'caller' for the caller's
+    # **fill_values, a {key: default} table for each set of defaults - read off the statements that build the mapping
     calls = [x for x in ast.walk(g.fi.node) if is_super_call(x, 'reindex')]
-    if calls:
-        c = calls[0]
-        ok = c.args and text(c.args[0]) == 'span' and text(kwarg(c, 'fill_value') or ast.Constant(0)) == 'fill_value' \
-            and text(kwarg(c, 'strict') or ast.Constant(0)) == 'strict' and has_star_kwargs(c, 'fill_values')
-        R.check(ok, MR, 'model-forwarding', 'span, fill_value, strict and the per-variable fills are forwarded to the base reindex',
-                f'`{text(c)[:80]}` does not forward span/fill_value/strict/**fill_values', where=g.fi.where)
-        rets = g.returns()
-        R.check(len(rets) == 1 and rets[0].ast.value is c, MR, 'model-returns-base', 'the base result is returned', 'BaseModel.reindex does not return the base result', where=g.fi.where)
+    if not R.require(MR, len(calls), 'super().reindex(...)', fi=g.fi, pred=lambda x: isinstance(x, ast.Call) and isinstance(x.func, ast.Attribute) and x.func.attr == 'reindex'):
+        return
+    c = calls[0]
+    star = [k.value for k in c.keywords if k.arg is None]
+    kwparam = g.fi.node.args.kwarg.arg if g.fi.node.args.kwarg else None
+    if len(star) != 1 or not isinstance(star[0], ast.Name) or kwparam is None:
+        raise Unknown(f'{MR}: the per-variable fills handed to the base reindex are `{[text(x) for x in star]}`')
+    K = star[0].id
+    layers = _fill_layers(R, g, K, kwparam)
+    for key in ('status', 'iterations'):
+        pos = [i for i, l_ in enumerate(layers) if l_ != 'caller' and key in l_]
+        ci = layers.index('caller') if 'caller' in layers else None
+        if not pos:
+            R.violation(MR, f'missing:model-default:{key}', f"no default for `{key}` reaches the base reindex: new periods of `{key}` get the dtype default, not the initial value",
+                        where=g.fi.where)
+            continue
+        top = max(pos)
+        R.check(ci is not None and ci > top, MR, f'model-default-keeps-caller:{key}', f"a caller-supplied fill for `{key}` is kept",
+                f"the default for `{key}` is applied over (or instead of) a caller-supplied fill", where=g.fi.where)
+        dv = layers[top][key]
+        if key in inits:
+            same = ast.dump(dv) == ast.dump(inits[key])
+            R.check(same, MR, f'model-default:{key}:{text(dv)}', f'new periods get the initial `{key}` value ({text(inits[key])})',
+                    f"reindex default for `{key}` is `{text(dv)}` but ModelInterface.__init__ initialises it with `{text(inits[key])}`", where=g.fi.where)
+    # and they are forwarded
+    ok = c.args and text(c.args[0]) == 'span' and text(kwarg(c, 'fill_value') or ast.Constant(0)) == 'fill_value' \
+        and text(kwarg(c, 'strict') or ast.Constant(0)) == 'strict'
+    R.check(ok, MR, 'model-forwarding', 'span, fill_value, strict and the per-variable fills are forwarded to the base reindex',
+            f'`{text(c)[:80]}` does not forward span/fill_value/strict/**fill_values', where=g.fi.where)
+    rets = g.returns()
+    R.check(len(rets) == 1 and rets[0].ast.value is c, MR, 'model-returns-base', 'the base result is returned', 'BaseModel.reindex does not return the base result', where=g.fi.where)
+
+
+def _class_table(R, g, e: ast.AST):
+    """`self.NAME` / `cls.NAME` / `type(self).NAME` / `<Class>.NAME` as the dictionary literal assigned in the class body (or
+    a base's): {key: value expression}; None if it is not one."""
+    if not isinstance(e, ast.Attribute):
+        return None
+    from fsa.source import c3_mro
+    try:
+        mro = c3_mro(R.repo, g.fi.cls.qualname)
+    except Exception:
+        mro = [g.fi.cls.qualname]
+    for cq in mro:
+        for s_ in R.repo.classes[cq].node.body:
+            tgt = s_.targets[0] if isinstance(s_, ast.Assign) and len(s_.targets) == 1 else (s_.target if isinstance(s_, ast.AnnAssign) else None)
+            if tgt is not None and text(tgt) == e.attr and isinstance(getattr(s_, 'value', None), ast.Dict) and all(isinstance(k, ast.Constant) for k in s_.value.keys):
+                return {k.value: v for k, v in zip(s_.value.keys, s_.value.values)}
+    return None
+
+
+def _fill_layers(R, g, K: str, kwparam: str):
+    """Layers of the mapping `K` handed on as **K, lowest precedence first ('caller' | {key: default})."""
+    layers = None
+    if K == kwparam:
+        layers = ['caller']
+    stmts = [n for n in g.cfg.nodes if n.kind in ('stmt', 'for') and n.ast is not None]
+    done_loops = set()
+    for n in stmts:
+        a_ = n.ast
+        mentions = any(isinstance(x, ast.Name) and x.id == K for x in ast.walk(a_ if n.kind == 'stmt' else a_.iter))
+        if n.kind == 'for':
+            # for name, value in TABLE.items(): K.setdefault(name, value) / K[name] = value
+            body = [b for b in a_.body if not (isinstance(b, ast.Expr) and isinstance(b.value, ast.Constant))]
+            if len(body) == 1 and any(isinstance(x, ast.Name) and x.id == K for x in ast.walk(body[0])):
+                tg = [x.id for x in ast.walk(a_.target) if isinstance(x, ast.Name)]
+                tab = _class_table(R, g, a_.iter.func.value) if method_call(a_.iter, 'items') else None
+                b0 = body[0]
+                if tab is None or len(tg) != 2 or layers is None:
+                    raise Unknown(f'{MR}: `{text(a_)[:60]}` fills `{K}` from a table this rule cannot read')
+                if isinstance(b0, ast.Expr) and method_call(b0.value, 'setdefault') and text(b0.value.func.value) == K and [text(x) for x in b0.value.args] == tg:
+                    layers.insert(0, tab)
+                elif isinstance(b0, ast.Assign) and isinstance(b0.targets[0], ast.Subscript) and text(b0.targets[0].value) == K and text(b0.targets[0].slice) == tg[0] \
+                        and text(b0.value) == tg[1]:
+                    layers.append(tab)
+                else:
+                    raise Unknown(f'{MR}: `{text(b0)[:60]}` in a loop over a table: not a setdefault / store of its entries')
+                done_loops.add(n.id)
+            continue
+        if not mentions or any(l in done_loops for l in n.loops):
+            continue
+        if n.loops or len(g.guards_of(n.id)) > 0 and any(g.cfg.nodes[t].kind == 'test' for (t, _l) in g.guards_of(n.id)):
+            raise Unknown(f'{MR}: `{text(a_)[:60]}` changes `{K}` conditionally; the layers of defaults are not read there')
+        # definition of a local K
+        if isinstance(a_, (ast.Assign, ast.AnnAssign)) and text(a_.targets[0] if isinstance(a_, ast.Assign) else a_.target) == K:
+            v = a_.value
+            if (is_call(v, 'dict') and len(v.args) == 1 and text(v.args[0]) == kwparam and not v.keywords) or (method_call(v, 'copy') and text(v.func.value) == kwparam):
+                layers = ['caller']
+            elif isinstance(v, ast.Dict):
+                layers = []
+                cur = {}
+                for k_, v_ in zip(v.keys, v.values):
+                    if k_ is None:
+                        if cur:
+                            layers.append(cur)
+                            cur = {}
+                        if text(v_) == kwparam:
+                            layers.append('caller')
+                        else:
+                            tab = _class_table(R, g, v_)
+                            if tab is None:
+                                raise Unknown(f'{MR}: `**{text(v_)}` in `{text(a_)[:50]}` is not a table this rule can read')
+                            layers.append(tab)
+                    elif isinstance(k_, ast.Constant):
+                        cur[k_.value] = v_
+                    else:
+                        raise Unknown(f'{MR}: computed key in `{text(a_)[:50]}`')
+                if cur:
+                    layers.append(cur)
+            elif _class_table(R, g, v) is not None:
+                # K *is* the class-level table (no copy): any change made through K is made to the class, for every instance
+                # and every later call
+                muts = [m for m in g.cfg.nodes if m.ast is not None and m.kind == 'stmt' and m.id != n.id and any(
+                    (isinstance(x, ast.Call) and isinstance(x.func, ast.Attribute) and text(x.func.value) == K and x.func.attr in ('update', 'setdefault', 'pop', 'clear', 'popitem', '__setitem__'))
+                    or (isinstance(x, ast.Subscript) and text(x.value) == K and isinstance(x.ctx, (ast.Store, ast.Del)))
+                    or (isinstance(x, ast.AugAssign) and text(x.target) == K) for x in ast.walk(m.ast))]
+                if muts:
+                    R.violation(MR, f'class-state-mutated:{text(v)}', f'`{text(a_)[:50]}` names the class-level table itself and `{text(muts[0].ast)[:50]}` changes it in place: '
+                                f'the fills of one call stay in `{text(v)}` for every later call and every other instance (reindex must affect nothing but its result)',
+                                where=g.where(muts[0]))
+                layers = [_class_table(R, g, v)]
+            else:
+                raise Unknown(f'{MR}: `{text(a_)[:60]}` defines `{K}` in a form this rule cannot read')
+            continue
+        if layers is None:
+            raise Unknown(f'{MR}: `{text(a_)[:60]}` uses `{K}` before a definition this rule can read')
+        # K[key] = K.get(key, D) | K[key] = D | K.setdefault(key, D) | K.update({...})
+        if isinstance(a_, ast.Assign) and isinstance(a_.targets[0], ast.Subscript) and text(a_.targets[0].value) == K and isinstance(a_.targets[0].slice, ast.Constant):
+            key = a_.targets[0].slice.value
+            v = a_.value
+            if method_call(v, 'get') and text(v.func.value) == K and len(v.args) == 2 and is_const(v.args[0], key):
+                layers.insert(0, {key: v.args[1]})
+            else:
+                layers.append({key: v})
+            continue
+        if isinstance(a_, ast.Expr) and method_call(a_.value, 'setdefault') and text(a_.value.func.value) == K and len(a_.value.args) == 2 and isinstance(a_.value.args[0], ast.Constant):
+            layers.insert(0, {a_.value.args[0].value: a_.value.args[1]})
+            continue
+        if isinstance(a_, ast.Expr) and method_call(a_.value, 'update') and text(a_.value.func.value) == K and len(a_.value.args) == 1 and text(a_.value.args[0]) == kwparam:
+            layers.append('caller')
+            continue
+        if isinstance(a_, ast.Expr) and method_call(a_.value, 'update') and text(a_.value.func.value) == K and len(a_.value.args) == 1 and isinstance(a_.value.args[0], ast.Dict) \
+                and all(isinstance(k_, ast.Constant) for k_ in a_.value.args[0].keys):
+            layers.append({k_.value: v_ for k_, v_ in zip(a_.value.args[0].keys, a_.value.args[0].values)})
+            continue
+        if any(is_super_call(x, 'reindex') for x in ast.walk(a_)):
+            continue
+        raise Unknown(f'{MR}: `{text(a_)[:60]}` uses `{K}` in a form this rule cannot read')
+    if layers is None:
+        raise Unknown(f'{MR}: no readable definition of `{K}`')
+    return layers
 
 
 def r3_precedence(R) -> None:
@@ -186,49 +318,81 @@ def r4_strict(R) -> None:
 
 
 def r5_position_map(R) -> None:
+    """Values travel new <- old through pairs (new position, old position of the same label), built in one loop over the
+    new span.  The pairs may live in a dictionary (`positions[new] = old`) or in two parallel lists; they may be consumed
+    one at a time or by one fancy-indexed assignment.  What is decided: the direction at construction and at consumption."""
     from fsa.match import nnf_atoms
     f = Fn(R, VR)
     res = _result_name(f)
-    # consumption first: `for new, old in <map>.items(): reindexed[name][new] = self[name][old]` names the map
-    cp = [m for m in f.cfg.nodes if m.kind == 'stmt' and isinstance(m.ast, ast.Assign) and isinstance(m.ast.targets[0], ast.Subscript)
-          and isinstance(m.ast.targets[0].value, ast.Subscript) and text(m.ast.targets[0].value.value) == res]
-    pmap = 'positions'
-    if cp and cp[0].loops:
-        it = f.cfg.nodes[cp[0].loops[-1]].ast.iter
-        if method_call(it, 'items') and isinstance(it.func.value, ast.Name):
-            pmap = it.func.value.id
-    # construction: {i: self._locate_period_in_span(period) for i, period in enumerate(span) if period in self.span}
-    anchor = f.cfg.nodes[cp[0].loops[-1]] if cp and cp[0].loops else None
-    dc = f.as_dictcomp(anchor.id, ast.Name(id=pmap, ctx=ast.Load())) if anchor is not None else None
-    if dc is None:
-        st = [n for n in f.cfg.nodes if n.kind == 'stmt' and isinstance(n.ast, ast.Assign) and isinstance(n.ast.targets[0], ast.Subscript) and text(n.ast.targets[0].value) == pmap]
-        if not R.require(VR, len(st), 'positions[new] = old position', fi=f.fi, pred=lambda x: isinstance(x, ast.Subscript) and text(x.value) == pmap):
-            return
-        dc = f.loop_store_comp(st[0])
-        if dc is None:
-            raise Unsupported(f'{VR}: the position map `{pmap}` is not built by one loop or comprehension')
-    g = dc.generators[0]
-    tg = [x.id for x in ast.walk(g.target) if isinstance(x, ast.Name)]
-    ok = len(dc.generators) == 1 and text(g.iter) == 'enumerate(span)' and len(tg) == 2 and text(dc.key) == tg[0] and text(dc.value) == f'self._locate_period_in_span({tg[1]})'
-    R.check(ok, VR, 'map-build:' + text(dc)[:80], 'the map sends each new position to the old position of the same label',
-            f'`{text(dc)[:100]}` does not build new -> old', where=f.fi.where)
-    conds = [(text(a_), tr) for c_ in g.ifs for (a_, tr) in nnf_atoms(c_, True)]
+    LOC = 'self._locate_period_in_span'
+    # -- producers
+    pairs = None   # (kind, names, loop node, new expr, old expr, site)
+    for n in f.cfg.nodes:
+        if n.kind != 'stmt' or not n.loops or n.ast is None:
+            continue
+        a_ = n.ast
+        if isinstance(a_, ast.Assign) and isinstance(a_.targets[0], ast.Subscript) and isinstance(a_.targets[0].value, ast.Name) \
+                and any(is_call(x, LOC) for x in ast.walk(a_)) and a_.targets[0].value.id in f.lf.locals:
+            pairs = ('dict', (a_.targets[0].value.id,), f.cfg.nodes[n.loops[-1]], a_.targets[0].slice, a_.value, n)
+    if pairs is None:
+        apps = [n for n in f.cfg.nodes if n.kind == 'stmt' and n.loops and isinstance(n.ast, ast.Expr) and method_call(n.ast.value, 'append')
+                and isinstance(n.ast.value.func.value, ast.Name) and len(n.ast.value.args) == 1]
+        olds = [n for n in apps if any(is_call(x, LOC) for x in ast.walk(n.ast))]
+        for o in olds:
+            mates = [n for n in apps if n is not o and n.loops == o.loops and sorted(f.guards_of(n.id)) == sorted(f.guards_of(o.id))
+                     and n.ast.value.func.value.id != o.ast.value.func.value.id]
+            if len(mates) == 1:
+                pairs = ('lists', (mates[0].ast.value.func.value.id, o.ast.value.func.value.id), f.cfg.nodes[o.loops[-1]], mates[0].ast.value.args[0], o.ast.value.args[0], o)
+    if pairs is None:
+        # a dictionary comprehension
+        for n in f.cfg.nodes:
+            if n.kind == 'stmt' and isinstance(n.ast, (ast.Assign, ast.AnnAssign)) and isinstance(n.ast.value, ast.DictComp) and any(is_call(x, LOC) for x in ast.walk(n.ast.value)):
+                dc = n.ast.value
+                tgt = n.ast.targets[0] if isinstance(n.ast, ast.Assign) else n.ast.target
+                pairs = ('dictcomp', (text(tgt),), dc.generators[0], dc.key, dc.value, n)
+    if pairs is None:
+        R.require(VR, 0, 'pairs (new position, old position): positions[new] = self._locate_period_in_span(label)', fi=f.fi, pred=lambda x: is_call(x, LOC))
+        return
+    kind, names, lp, new_e, old_e, site = pairs
+    if kind == 'dictcomp':
+        it, tgt, ifs = lp.iter, lp.target, lp.ifs
+        conds = [(text(a_), tr) for c_ in ifs for (a_, tr) in nnf_atoms(c_, True)]
+    else:
+        it, tgt = lp.ast.iter, lp.ast.target
+        conds = [(text(a_), tr) for (a_, tr, tn) in f.guard_atoms(site.id) if lp.id in tn.loops]
+    tg = [x.id for x in ast.walk(tgt) if isinstance(x, ast.Name)]
+    ok = text(it) == 'enumerate(span)' and len(tg) == 2 and text(new_e) == tg[0] and text(old_e) == f'{LOC}({tg[1]})'
+    R.check(ok, VR, 'map-build:' + text(site.ast)[:80], 'each new position is paired with the old position of the same label',
+            f'`{text(site.ast)[:80]}` (new: `{text(new_e)}`, old: `{text(old_e)}`, over `{text(it)}`) does not pair new -> old', where=f.where(site))
     R.check(len(tg) == 2 and conds == [(f'{tg[1]} in self.span', True)], VR, 'map-only-shared', 'only labels present in the old span are mapped', f'guard is {conds}', where=f.fi.where)
-    # consumption: reindexed[name][new] = self[name][old] for new, old in positions.items()
+    # -- consumers: every store into an element / selection of a series of the result
     cp = [m for m in f.cfg.nodes if m.kind == 'stmt' and isinstance(m.ast, ast.Assign) and isinstance(m.ast.targets[0], ast.Subscript)
           and isinstance(m.ast.targets[0].value, ast.Subscript) and text(m.ast.targets[0].value.value) == res]
     if R.require(VR, len(cp), 'reindexed[name][new] = self[name][old]', fi=f.fi, pred=lambda x: isinstance(x, ast.Subscript) and isinstance(x.value, ast.Subscript) and text(x.value.value) == res):
-        m = cp[0]
-        lp2 = [f.cfg.nodes[i] for i in m.loops]
-        ok = bool(lp2) and text(lp2[-1].ast.iter) == f'{pmap}.items()'
-        kv = [x.id for x in ast.walk(lp2[-1].ast.target) if isinstance(x, ast.Name)] if lp2 else []
-        v = m.ast.value
-        nm_ = text(m.ast.targets[0].value.slice)
-        ok = ok and len(kv) == 2 and text(m.ast.targets[0].slice) == kv[0] and isinstance(v, ast.Subscript) \
-            and f.etext(m.id, v.value, stop=(nm_,)) in (f'self[{nm_}]', f"self.__dict__['_' + {nm_}]") \
-            and text(v.slice) == kv[1] and len(lp2) >= 2 and text(lp2[-2].ast.target) == nm_
-        R.check(ok, VR, 'map-consume:' + text(m.ast), 'values are copied new <- old through the map (no crossing)',
-                f'`{text(m.ast)}` with `for {text(lp2[-1].ast.target) if lp2 else "?"} in positions.items()` crosses or misuses the position map', where=f.where(m))
+        n_read = 0
+        for m in cp:
+            idx, v = m.ast.targets[0].slice, m.ast.value
+            nm_ = text(m.ast.targets[0].value.slice)
+            src_ok = isinstance(v, ast.Subscript) and f.etext(m.id, v.value, stop=(nm_,)) in (f'self[{nm_}]', f"self.__dict__['_' + {nm_}]")
+            new_v = old_v = None
+            lp2 = [f.cfg.nodes[i] for i in m.loops]
+            if lp2:
+                it2, tg2 = lp2[-1].ast.iter, lp2[-1].ast.target
+                kv = [x.id for x in ast.walk(tg2) if isinstance(x, ast.Name)]
+                if kind in ('dict', 'dictcomp') and text(it2) == f'{names[0]}.items()' and len(kv) == 2:
+                    new_v, old_v = kv
+                elif kind == 'lists' and is_call(it2, 'zip') and len(it2.args) == 2 and len(kv) == 2 and {text(a_) for a_ in it2.args} == set(names):
+                    order = [text(a_) for a_ in it2.args]
+                    new_v, old_v = kv[order.index(names[0])], kv[order.index(names[1])]
+            if new_v is None and kind == 'lists' and isinstance(idx, ast.Name) and isinstance(v, ast.Subscript) and isinstance(v.slice, ast.Name) \
+                    and {idx.id, v.slice.id} == set(names):
+                new_v, old_v = names      # one fancy-indexed assignment over the two lists
+            if new_v is None:
+                raise Unknown(f'{VR}: `{text(m.ast)[:70]}` copies values into the result in a form this rule does not read (slice / window / mask)')
+            n_read += 1
+            okc = src_ok and text(idx) == new_v and isinstance(v, ast.Subscript) and text(v.slice) == old_v
+            R.check(okc, VR, 'map-consume:' + text(m.ast), 'values are copied new <- old through the pairs (no crossing)',
+                    f'`{text(m.ast)}` crosses or misuses the position pairs (new is `{new_v}`, old is `{old_v}`)', where=f.where(m))
     # span of the result
     sp = [x for x in f.cfg.nodes if x.kind == 'stmt' and isinstance(x.ast, ast.Assign) and dict_slot(x.ast.targets[0]) is not None and is_const(dict_slot(x.ast.targets[0])[1], 'span')]
     ok = len(sp) == 1 and dict_slot(sp[0].ast.targets[0])[0] == res and text(sp[0].ast.value) == (f.fi.params() + ['span'])[1]
